@@ -503,6 +503,20 @@ class Gen:
         return t
 
     # ---- interfaces
+    def _derived_result(self, module, b):
+        """Sometimes an interface function returns a derived type of the host module (IMPORTed into the body)."""
+        tinfo = module.get("_typeinfo", {})
+        types = [t for t in module.get("_types", []) if not tinfo.get(t, {}).get("abstract")]
+        if b["k"] != "function" or not types or "iface_derived_result" in self.excl or not self.ch.bool(1, 3):
+            return
+        t = self.ch.choice(types)
+        b["rettype"] = {"base": "type", "proto": t, "kind": None}
+        b["import"] = [t]
+        rn = b.get("result") or b["name"]
+        for d in b["decls"]:
+            if d["d"] == "var" and any(e["name"] == rn for e in d["ents"]):
+                d["ts"] = dict(b["rettype"])
+
     def interface(self, module):
         ch = self.ch
         form = ch.weighted([(3, "generic"), (2, "abstract"), (2, "explicit"), (1, "operator")])
@@ -510,6 +524,7 @@ class Gen:
             i = {"d": "interface", "form": "abstract", "bodies": [], "doc": None}
             for _ in range(ch.count(1, 2)):
                 b = self.procedure({"_kinds": []}, 0, in_interface=True, name=self.name("absi"))
+                self._derived_result(module, b)
                 if self.cfg["access"] and ch.bool(1, 4):
                     b["access"] = ch.choice(["public", "private"])
                     b["access_how"] = ch.choice(["stmt_after", "stmt_before"])
@@ -521,6 +536,7 @@ class Gen:
             i = {"d": "interface", "form": "explicit", "bodies": [], "doc": None}
             for _ in range(ch.count(1, 2)):
                 b = self.procedure({"_kinds": []}, 0, in_interface=True, name=self.name("ext"))
+                self._derived_result(module, b)
                 if self.cfg["access"] and ch.bool(1, 4):
                     b["access"] = ch.choice(["public", "private"])
                     b["access_how"] = ch.choice(["stmt_after", "stmt_before"])
